@@ -25,8 +25,8 @@ COMPONENTS_SPARSE = {
 PROPS = {
     'C09': {
         'engine': 'sparsesim',
-        'quick': {'runs': 60000, 'steps': (10, 30), 'deadline_s': 60, 'chunk': 100, 'seed': 9},
-        'thorough': {'runs': 1500000, 'steps': (10, 40), 'deadline_s': 600, 'chunk': 500, 'seed': 1009},
+        'quick': {'runs': 50000, 'steps': (10, 30), 'deadline_s': 60, 'chunk': 100, 'seed': 9},
+        'thorough': {'runs': 800000, 'steps': (10, 40), 'deadline_s': 600, 'chunk': 500, 'seed': 1009},
         'rule': ('one evaluation = one simulated history of 10-30 operations on a universe of 3-8 live sparse '
                  'objects (vectors, logical vectors, 2-d arrays up to 3 x 6, aliasing rows included), every '
                  'step checked against NumPy mirrors on ALL live objects; distinct = distinct abstract '
@@ -81,5 +81,5 @@ PROPS = {
                         'come from Chemical / mixture model objects called directly (not through the stream)',
                         'seeded sampling, not exhaustive'],
         'components': COMPONENTS_STREAM,
-    } for p in ('C01', 'C10', 'C11', 'C12', 'C13', 'C14')},
+    } for p in ('C01', 'C02', 'C10', 'C11', 'C12', 'C13', 'C14')},
 }
